@@ -1,7 +1,7 @@
 """C08 -- proposals are uniform over the bound and reported volumes are calibrated (weak)."""
 from ..agree import rule_A3, rule_Q1_Q2
 from ..pathrules import rule_T8ii
-from ..persist import rule_P4_bound, rule_P1_P2, persist_classes
+from ..persist import rule_P4_bound, rule_P1_P2, rule_P9, persist_classes, _ctor_obj
 from ..shape import rule_N2
 from ..lockstep import ExpandingTracker
 from .C13 import rule_T9, G_UNION
@@ -25,6 +25,8 @@ def run(ctx):
                                           arrays={'block', 'log_v_all'}))
     for cname in ('Union', 'NautilusBound'):
         rule_P4_bound(ctx, prog.cls(cname))
+        rd = prog.cls(cname).methods['read']      # ... and members come back in written order
+        rule_P9(ctx, rd, _ctor_obj(rd))
     ctx.floor('A3', 5, 'merge obligations')
     ctx.floor('T8', 4, 'accounting obligations')
     ctx.not_decided += ['uniformity of proposals and calibration of volumes as distributional '
